@@ -66,7 +66,7 @@ def run_c06(pid, tier, seed, replay=None):
         ck.cov["traces_validated_against_impl"] = nrows
         ck.cov["evaluations"] = nrows + len(srows)
         ck.cov["distinct_nontrivial"] = nrows
-        ck.cov["rule"] = "per random table: one write event (memory/disk alternating), one library round trip, five reads of codec-written files (layout, no EXTENTS, no PERIOD, reversed extensions, single ORDER key)"
+        ck.cov["rule"] = "per random table (1..9-D; 0..9 keys incl. candidates beginning like structural keywords, one table in ten with 40..120 keys): one write event (memory/disk alternating), one library round trip, five reads of codec-written files (layout, no EXTENTS, no PERIOD, reversed extensions, single ORDER key)"
         ck.sample(first)
         return ck.finish(exhaustive=False)
     finally:
